@@ -153,7 +153,15 @@ impl ContinuousCDF<f64, f64> for Gamma {
         } else if x.is_infinite() {
             1.0
         } else {
-            gamma::gamma_lr(self.shape, x * self.rate)
+            // the scaled argument can leave (0, inf), the domain of gamma_lr, although x is inside it
+            let scaled = x * self.rate;
+            if scaled == 0.0 {
+                0.0
+            } else if scaled.is_infinite() {
+                1.0
+            } else {
+                gamma::gamma_lr(self.shape, scaled)
+            }
         }
     }
 
@@ -178,7 +186,15 @@ impl ContinuousCDF<f64, f64> for Gamma {
         } else if x.is_infinite() {
             0.0
         } else {
-            gamma::gamma_ur(self.shape, x * self.rate)
+            // the scaled argument can leave (0, inf), the domain of gamma_ur, although x is inside it
+            let scaled = x * self.rate;
+            if scaled == 0.0 {
+                1.0
+            } else if scaled.is_infinite() {
+                0.0
+            } else {
+                gamma::gamma_ur(self.shape, scaled)
+            }
         }
     }
 
